@@ -3,6 +3,7 @@
 from __future__ import annotations
 
 import ast
+import re
 from typing import Any, Dict, List, Optional, Set, Tuple
 
 from .. import hexa, quads, sketches
@@ -686,4 +687,67 @@ def transform_routing(repo: Repo) -> RuleRun:
 
 transform_routing.rule_id = "C11.TRANSFORM-ROUTING"
 
-RULES = [quad_map_rule, chop_coverage, chop_role, radial_convention, arc_rings, chain_source, mirror_pairing, trig_domain, fill_conformal, arc_side, affine_kinds, stack_chain, no_shared_parts, moved_once, transform_routing]
+def axis_terms(repo: Repo) -> RuleRun:
+    """'adjacent blocks share the vertices along their common faces' for elliptic outlines too: the spline-round sketches place their
+    points by adding one term per local axis - (side_k + ratio * r_k) * u_k - and a quarter meets its mirrored neighbours only if
+    every term is built from the quantities of ONE axis. Every product in the constructors of the spline-round module is examined:
+    the names it multiplies carry one axis suffix (_1 or _2), never both."""
+    r = RuleRun(PROP, "C11.AXIS-TERMS", floor=8, what="every product term in the spline-round constructors combines quantities of one local axis only (side_k, r_k, u_k, width_k with the same k)")
+    mod = repo.module("construct.flat.sketches.spline_round")
+    n = 0
+    for fn in sorted(repo.all_functions(), key=lambda f: f.qualname):
+        if fn.module is not mod or fn.name != "__init__":
+            continue
+        k = 0
+        for node in ast.walk(fn.node):
+            if not (isinstance(node, ast.BinOp) and isinstance(node.op, ast.Mult)):
+                continue
+            par = parent(node)
+            if isinstance(par, ast.BinOp) and isinstance(par.op, ast.Mult):
+                continue  # examined as part of the enclosing product
+            sufs = {}
+            for x in ast.walk(node):
+                nm = x.id if isinstance(x, ast.Name) else x.attr if isinstance(x, ast.Attribute) else None
+                mm = re.fullmatch(r"(side|r|u|width|corner)_([12])", nm or "")
+                if mm:
+                    sufs.setdefault(mm.group(2), []).append(nm)
+            if not sufs:
+                continue
+            n += 1
+            r.check(
+                len(sufs) == 1,
+                fn,
+                f"'{ast.unparse(node)[:60]}': one axis",
+                f"{fn.qualname}: the term '{ast.unparse(node)[:90]}' mixes quantities of both local axes ({sorted(sum(sufs.values(), []))}): for an outline with different radii / sides along the two axes the point is misplaced, "
+                "and the quarters of the half and full disks no longer share it",
+                node,
+                key=f"term#{k}",
+            )
+            k += 1
+    r.require(n >= 8, f"only {n} axis terms found in the spline-round constructors")
+    return r
+
+
+axis_terms.rule_id = "C11.AXIS-TERMS"
+
+
+def mirror_matrix(repo: Repo) -> RuleRun:
+    """'any valid placement': a shape mirrored about a plane in general position is a reflection of the original, so its blocks stay conformal. Same rule as C09.MIRROR-MATRIX."""
+    from ..report import rebrand
+    from . import c09
+
+    return rebrand(c09.mirror_matrix(repo), PROP, "C11.MIRROR-MATRIX")
+
+
+mirror_matrix.rule_id = "C11.MIRROR-MATRIX"
+
+def arguments_untouched(repo: Repo) -> RuleRun:
+    """'adjacent blocks share the vertices along their common faces' when several operations are built from one face: constructors work on copies of the entities they are handed. Same rule as C09.ARGUMENTS-UNTOUCHED."""
+    from ..alias import argument_mutation_rule
+
+    return argument_mutation_rule(repo, PROP, "C11.ARGUMENTS-UNTOUCHED")
+
+
+arguments_untouched.rule_id = "C11.ARGUMENTS-UNTOUCHED"
+
+RULES = [quad_map_rule, chop_coverage, chop_role, radial_convention, arc_rings, chain_source, mirror_pairing, trig_domain, fill_conformal, arc_side, affine_kinds, stack_chain, no_shared_parts, moved_once, transform_routing, axis_terms, mirror_matrix, arguments_untouched]
